@@ -158,3 +158,23 @@ Qed.
 
 Lemma sort_nat_sorted l : Sorted N.le (sort_nat l).
 Proof. induction l as [|x l IH]; simpl; [constructor|apply ins_sorted_sorted; exact IH]. Qed.
+
+Lemma ins_key_perm key x l : Permutation (ins_key key x l) (x :: l).
+Proof.
+  induction l as [|y l IH]; simpl; [apply Permutation_refl|].
+  destruct (N.leb (key x) (key y)); [apply Permutation_refl|].
+  eapply Permutation_trans; [apply perm_skip; exact IH|apply perm_swap].
+Qed.
+
+Lemma sort_key_perm key l : Permutation (sort_key key l) l.
+Proof.
+  induction l as [|x l IH]; simpl; [constructor|].
+  eapply Permutation_trans; [apply ins_key_perm|apply perm_skip; exact IH].
+Qed.
+
+Lemma py_sorted_key_perm l m r : Permutation (py_sorted_key l m r) l.
+Proof.
+  unfold py_sorted_key. destruct r; [|apply sort_key_perm].
+  eapply Permutation_trans; [apply Permutation_sym, Permutation_rev|].
+  eapply Permutation_trans; [apply sort_key_perm|apply Permutation_sym, Permutation_rev].
+Qed.
